@@ -56,6 +56,14 @@ Print Assumptions vertex_i_is_record_i_ascii.
 
 (* ---- extra unrecognised properties become scalar attributes with the record's value ---- *)
 
+(* LoadUnspecifiedProperties: after the group readers bs, exactly the properties none of them claims get a scalar
+   reader named after the property, in header order (properties with distinct names) *)
+Theorem unclaimed_become_scalars : forall bin (all todo : vprops) bs,
+  NoDup (names todo) ->
+  add_unclaimed bin (scalars all) (scalars todo) bs = Ok (bs ++ unclaimed_readers bin all bs todo).
+Proof. intros. apply add_unclaimed_spec. assumption. Qed.
+Print Assumptions unclaimed_become_scalars.
+
 (* binary: the reader LoadUnspecifiedProperties builds for a declared property exists, carries the property's own
    name as attribute, and on the encoded record returns the float64 image of the record's word (uchar -> b/255,
    int -> float64(int32), float -> widened, double -> as stored); the four other scalar types are reported as
